@@ -797,6 +797,15 @@ func (fr *Frame) callBuiltin(st *State, instr ssa.Instruction, b *ssa.Builtin, c
 			u.enc.fresh++
 			u.assume(fmt.Sprintf("(forall ((%s Int)) (! (= (select %s %s) (ite (and (<= (sl_off %s) %s) (< %s (+ (sl_off %s) (sl_len %s)))) %s (select %s %s))) :pattern ((select %s %s))))",
 				j, newRow, j, x.T, j, j, x.T, x.T, u.enc.zero(t.Elem()), oldRow, j, newRow, j))
+			if sl, ok := c.Args[0].(*ssa.Slice); ok && sl.Low != nil {
+				// clear(y[lo:]): the elements of y before lo are untouched, so the element set of that prefix window is unchanged
+				if _, isSl := sl.X.Type().Underlying().(*types.Slice); isSl {
+					if y, lo := fr.get(sl.X), fr.get(sl.Low); y.T != "" && lo.T != "" {
+						el := u.sliceElems(es)
+						u.assumeG(st, eq(app(el, newRow, app("sl_off", y.T), lo.T), app(el, oldRow, app("sl_off", y.T), lo.T)))
+					}
+				}
+			}
 			u.heapStoreAt(st, h, app("sl_base", x.T), newRow)
 			return Val{T: "false", S: "Bool"}
 		}
